@@ -218,6 +218,10 @@ def _close(groups):
 # Every statement about the public measure functions is a statement about what they do AFTER input preparation: the
 # contract of reconcile_spike_trains (sorted, duplicate free, every input spike inside the interval kept, nothing else)
 # is part of each of them (two seeded tolerance-based de-duplications were first missed by properties without it).
+# ... and so are the wrappers around the kernels: call forms, lists with a train occurring twice, near-identical trains
+_WRAPPED = {'C01': ['plumb.forms', 'plumb.near', 'plumb.repeated'], 'C02': ['plumb.forms', 'plumb.near', 'plumb.repeated'],
+            'C03': ['plumb.forms', 'plumb.near', 'plumb.repeated'], 'C04': ['plumb.forms', 'plumb.near', 'plumb.repeated', 'plumb.same_window'],
+            'C14': ['plumb.near', 'plumb.same_window'], 'C07': ['plumb.near', 'plumb.repeated'], 'C16': ['plumb.same_window']}
 _PUBLIC_MEASURES = ('C01', 'C02', 'C03', 'C04', 'C05', 'C06', 'C07', 'C08', 'C12', 'C14', 'C15', 'C16', 'C17', 'C18')
 # C18 (no exception, finite, well formed) also covers the averaging over sub-intervals done by the profile classes
 _C18_EXTRA = ['pwc_integral_none.P', 'pwc_integral_one.P', 'pwc_integral.B', 'pwl_integral_none.P', 'pwl_integral_one.P', 'pwl_integral.B', 'disc_integral_none.P', 'disc_integral_one.P', 'disc_integral.B', 'pwc_avrg_none.P', 'pwc_avrg_one.P', 'pwc_avrg_list2.P', 'pwc_avrg.B', 'pwl_avrg_none.P', 'pwl_avrg_one.P', 'pwl_avrg_list2.P', 'pwl_avrg.B', 'disc_avrg_none.P', 'disc_avrg_one.P', 'disc_avrg_list2.P', 'disc_avrg.B', 'pwc_call.P', 'pwc_call.B', 'pwl_call.P', 'pwl_call.B']
@@ -229,4 +233,5 @@ for _k, _p in PROPS.items():
             _g.append('reconcile.B')
         if _k == 'C18':
             _g += [x for x in _C18_EXTRA if x not in _g]
+        _g += [x for x in _WRAPPED.get(_k, []) if x not in _g]
         _p['groups'][_tier] = _g
